@@ -346,7 +346,7 @@ def root({arg}: f32[4], {spare}: f32[4], y: f32[4, 4]):
         for k in seq(0, 4):
             {spare}[k] += y[{v}, k] + {arg}[k]
 """
-    return GenProgram(HEADER + text, "root", ["leaf", "mid"], [], {"template": "name_nest", "op_sequence": ["inline", "inline"], "prefer_ops": ["inline", "inline", "inline_window", "unroll_loop"]})
+    return GenProgram(HEADER + text, "root", ["leaf", "mid"], [], {"template": "name_nest", "op_sequence": ["inline", "inline", "inline_window", "inline_window"], "prefer_ops": ["inline", "inline", "inline_window", "unroll_loop"]})
 
 
 def t_alloc_shapes(rng):
